@@ -103,16 +103,21 @@ def run_loop_with_spec(it, node, frame, spec, kind, iterable=None):
             recomputes.append(r)
     for (name, desc, init, step) in spec.ghost:
         _store(frame, name, fresh_value(it, name, desc))
+    for src in getattr(spec, 'havoc_stmts', ()):
+        exec_in(it, frame, src)      # heap locations the body writes (fresh values via the prelude)
     if loop_kind == 'seq':
         old = frame.locals['_todo']
         frame.locals['_todo'] = SeqVal(p.fresh('_todo', old.term.sort()), old.elem)
     elif loop_kind == 'range':
-        k = p.fresh_int('_k')
-        p.assume(k >= 0)
-        # intrinsic to range iteration: every earlier position passed the guard
-        p.assume(z3.Or(k == 0, int_term(rng[0]) + (k - 1) * int_term(rng[2]) < int_term(rng[1])))
-        frame.locals['_pos'] = z3.simplify(int_term(rng[0]) + k * int_term(rng[2]))
-        frame.locals['_k'] = k
+        # the current position: some lo + k*step reached by stepping while the guard held.  Only
+        # the linear consequences are stated (a product k*step of two symbols would leave linear
+        # arithmetic): pos >= lo, and pos == lo or the previous position passed the guard.
+        pos = p.fresh_int('_pos')
+        p.assume(pos >= int_term(rng[0]))
+        p.assume(z3.Or(pos == int_term(rng[0]),
+                       z3.And(pos - int_term(rng[2]) >= int_term(rng[0]),
+                              pos - int_term(rng[2]) < int_term(rng[1]))))
+        frame.locals['_pos'] = pos
     for (how, name, expr) in recomputes:
         if how == 'assign_dict':
             # the invariant *defines* the dictionary (extensionally) from the other variables:
